@@ -716,6 +716,53 @@ class Folder:
                 except IndexError as exc:
                     raise Unfoldable(str(exc))
                 return out if isinstance(r, (slice, list)) else out[0]
+            if isinstance(sl, ast.Tuple) and len(sl.elts) >= 3 and isinstance(sl.elts[0], ast.Constant) and sl.elts[0].value is Ellipsis and not any(isinstance(e_, ast.Constant) and e_.value is Ellipsis for e_ in sl.elts[1:]) and isinstance(base, list) and not isinstance(base, PySeq):
+                # base[..., i, j] / base[..., i, :] : integer positions (or whole axes) of the trailing axes
+                bs_ = _regular(base)
+                tr_ = []
+                for e_ in sl.elts[1:]:
+                    if isinstance(e_, ast.Slice):
+                        if e_.lower is not None or e_.upper is not None or e_.step is not None:
+                            raise Unfoldable("partial slice after an ellipsis")
+                        tr_.append(None)
+                    else:
+                        j_ = self.fold(e_)
+                        if not (isinstance(j_, int) and not isinstance(j_, bool)):
+                            raise Unfoldable("index after an ellipsis")
+                        tr_.append(j_)
+                if len(tr_) > len(bs_):
+                    raise Unfoldable("too many indices")
+                tail_ = bs_[len(bs_) - len(tr_):]
+                for j_, n_ in zip(tr_, tail_):
+                    if j_ is not None and not (-n_ <= j_ < n_):
+                        raise Unfoldable("index out of range")
+
+                def take_(v_, level):
+                    if level < len(bs_) - len(tr_):
+                        return [take_(r_, level + 1) for r_ in v_]
+                    k_ = level - (len(bs_) - len(tr_))
+                    if k_ == len(tr_):
+                        return v_
+                    if tr_[k_] is None:
+                        return [take_(r_, level + 1) for r_ in v_]
+                    return take_(v_[tr_[k_]], level + 1)
+
+                return take_(base, 0)
+            if isinstance(sl, ast.Tuple) and len(sl.elts) == 2 and isinstance(sl.elts[0], ast.Constant) and sl.elts[0].value is Ellipsis and isinstance(sl.elts[1], ast.Slice):
+                e_ = sl.elts[1]
+                lo = self.fold(e_.lower) if e_.lower is not None else None
+                hi = self.fold(e_.upper) if e_.upper is not None else None
+                st_ = self.fold(e_.step) if e_.step is not None else None
+                if not all(v is None or (isinstance(v, int) and not isinstance(v, bool)) for v in (lo, hi, st_)) or (st_ is not None and st_ <= 0) or not isinstance(base, list) or isinstance(base, PySeq):
+                    raise Unfoldable("slice")
+                _regular(base)
+
+                def last_sl(v):
+                    if isinstance(v, list) and v and isinstance(v[0], list):
+                        return [last_sl(r) for r in v]
+                    return v[lo:hi:st_]
+
+                return last_sl(base)
             if isinstance(sl, ast.Tuple) and len(sl.elts) == 2 and isinstance(sl.elts[0], ast.Constant) and sl.elts[0].value is Ellipsis:
                 i = self.fold(sl.elts[1])
 
@@ -1192,6 +1239,29 @@ class Folder:
         if isinstance(node, ast.Call):
             nm = call_name(node) or ""
             short = nm.split(".")[-1]
+            if short in ("atleast_1d", "atleast_2d", "atleast_3d") and nm.startswith("torch.") and len(node.args) == 1 and not node.keywords:
+                v_ = self.fold(node.args[0])
+                want_ = int(short[8])
+                if isinstance(v_, PySeq) or isinstance(v_, (str, dict, set)) or v_ is None:
+                    raise Unfoldable(f"{short} of a non-tensor")
+                d0_ = _depth(v_) if isinstance(v_, list) else 0
+                if isinstance(v_, list):
+                    _regular(v_)
+                if d0_ >= want_:
+                    return v_
+                if d0_ == 0:
+                    out_ = [v_]
+                    for _ in range(want_ - 1):
+                        out_ = [out_]
+                    return out_
+                if d0_ == 1:
+                    return [v_] if want_ == 2 else [[[x_] for x_ in v_]]  # (n,) -> (1, n) / (1, n, 1)
+                return [[[x_] for x_ in r_] for r_ in v_]  # (a, b) -> (a, b, 1)
+            if short == "kron" and nm.startswith(("torch.", "np.", "numpy.")) and len(node.args) == 2 and not node.keywords:
+                a_, b_ = self.fold(node.args[0]), self.fold(node.args[1])
+                if all(isinstance(t_, list) and not isinstance(t_, PySeq) and _depth(t_) == 2 and len(_regular(t_)) == 2 and 0 not in _shape(t_) for t_ in (a_, b_)):
+                    return [[x * y for x in ra for y in rb] for ra in a_ for rb in b_]
+                raise Unfoldable("kron of operands that are not both matrices")
             if short == "stack" and nm.startswith("torch.") and node.args:
                 parts = self.fold(node.args[0])
                 dim = next((self.fold(k.value) for k in node.keywords if k.arg == "dim"), self.fold(node.args[1]) if len(node.args) > 1 else 0)
